@@ -55,6 +55,18 @@ def oracle(pystog, case, res):
             _, y2, e2 = F.call_ft(pystog, case)
         if not (np.array_equal(y2, yo) and np.array_equal(e2, eo)):
             return "result not reproducible: differs after heap fill %r" % fill
+    # ... and whatever floating-point error handling the process switched on before the call (an honest weight at x = 0
+    # is never computed as 0/0): division and invalid-operation errors raise, warnings are errors
+    import warnings
+    try:
+        with np.errstate(divide="raise", invalid="raise"), warnings.catch_warnings():
+            warnings.simplefilter("error")
+            _, y4, e4 = F.call_ft(pystog, case)
+    except Exception as ex:
+        return "with floating-point errors set to raise before the call the Lorch transform raises %s: %s (x=0 on the grid: %s)" % (
+            type(ex).__name__, str(ex)[:120], 0.0 in case["xin"])
+    if not (np.array_equal(y4, yo) and np.array_equal(e4, eo)):
+        return "result differs when floating-point errors are set to raise before the call"
     hi = case["xmax"] if case["xmax"] is not None else max(case["xin"])
     a = math.pi / hi
     w = [F.lorch_w(a, v) for v in case["xin"]]
